@@ -1,5 +1,6 @@
 """isoutil.py — ISO8583 helpers for the harness: protocol serialisation, configurations, message generators."""
 import datetime
+import rx
 import re
 
 from util import hs, unhs
@@ -106,7 +107,8 @@ def cfg_text(cfg):
         fl = c.get('field_length')
         rows.append(':'.join([str(int(k)), FT.get(c['field_type'], 'O'), 'N' if fl is None else str(fl),
                               PT.get(c.get('field_python_type'), 'S'), hs(c.get('field_date_format', '%y%m%d')),
-                              PR.get(c.get('field_processor'), 'N'), '1' if c.get('field_processor_config') else '0']))
+                              PR.get(c.get('field_processor'), 'N'),
+                              rx.proto_cfg(c.get('field_processor_config')) if c.get('field_processor') == 'DE43' else '0']))
     return ';'.join(rows) if rows else '-'
 
 
@@ -117,6 +119,14 @@ def packaged():
 
 DE43_REGEX = (r"(?P<DE43_NAME>.+?) *\\(?P<DE43_ADDRESS>.+?) *\\(?P<DE43_SUBURB>.+?) *\\"
               r"(?P<DE43_POSTCODE>.{10})(?P<DE43_STATE>.{3})(?P<DE43_COUNTRY>\S{3})$")
+# other splitting patterns a caller might configure: inside the modelled regex fragment (sets, ranges, \d \D \s \S, greedy and
+# lazy counted repeats, anchors, plain groups) and, last, outside it (an optional group: the model answers Unmodelled)
+DE43_PATTERNS = [DE43_REGEX, DE43_REGEX, DE43_REGEX,
+                 r"(?P<DE43_A>[^\\]*)\\(?P<DE43_B>\d{2,4})(?P<DE43_C>[a-cX\s]+)\Z",
+                 r"(?P<DE43_X>.*)",
+                 r"(?P<DE43_HEAD>\D+?)(?P<DE43_NUM>\d+)(?:-?)(?P<DE43_TAIL>.*?)\s*$",
+                 r"^(?P<DE43_NAME>[A-Z ]{1,22}?) {0,3}(?P<DE43_CITY>\S.{0,12})(?P<DE43_CC>[A-Z]{2,3})$",
+                 r"(?P<DE43_NAME>.{1,22}?) *(?P<DE43_REST>\S.*)?$"]
 DATE_FORMATS = ['%y%m%d', '%y%m%d%H%M%S', '%Y%m%d', '%H%M%S', '%m%d', '%Y%m%d%H%M%S', '%d%m%y']
 
 
@@ -154,7 +164,7 @@ def gen_config(rng, allbits=False):
                 icc_done = True
             elif t < 0.42:
                 c['field_processor'] = 'DE43'
-                c['field_processor_config'] = DE43_REGEX
+                c['field_processor_config'] = rng.choice(DE43_PATTERNS)
             elif t < 0.5:
                 c['field_python_type'] = 'int'
         if 'field_python_type' not in c and rng.random() < 0.3:
@@ -232,6 +242,45 @@ def rand_tlv(rng, maxlen):
     return out or b'\x82\x02\x00\x00'
 
 
+def rand_de43(rng, codec, vmax):
+    """a merchant field: mostly of the documented shape name\\address\\suburb\\postcode(10)state(3)country(3), with the
+    variations that decide how it is split (blanks before a separator, separators inside a part, short or blank parts,
+    white space in the country, control characters, a trailing newline, parts missing)"""
+    def part(maxn):
+        n = rng.choice([1, 1, 2, 5, 12, rng.randint(1, maxn)])
+        alpha = rng.choice(['ABCDEFGHIJKLMNOPQRSTUVWXYZ abcdefghijklmnopqrstuvwxyz0123456789.,-/&', 'AB \\', ' ', 'A '])
+        t = ''.join(rng.choice(alpha) for _ in range(n))
+        if rng.random() < 0.3:
+            t += ' ' * rng.randint(1, 4)
+        return t
+    for _ in range(20):
+        pc = ''.join(rng.choice('0123456789 ') for _ in range(10))
+        if rng.random() < 0.2:
+            pc = pc[:rng.randint(0, 9)].ljust(10)
+        st = ''.join(rng.choice('ABCDEFGHIJKLMNOPQRSTUVWXYZ ') for _ in range(3))
+        co = ''.join(rng.choice('ABCDEFGHIJKLMNOPQRSTUVWXYZ' + (' \t' if rng.random() < 0.15 else '')) for _ in range(3))
+        s = part(22) + '\\' + part(30) + '\\' + part(13) + '\\' + pc + st + co
+        r = rng.random()
+        if r < 0.06:
+            s += '\n'
+        elif r < 0.1:
+            s = s.replace('\\', '', 1)                  # only two separators
+        elif r < 0.14:
+            s = s[:-rng.randint(1, 3)]                   # tail too short
+        elif r < 0.18:
+            s += rng.choice(['X', ' ', '\\'])            # something follows the country
+        elif r < 0.22:
+            i = rng.randrange(len(s))
+            s = s[:i] + rng.choice(['\n', '\x1c', '\x85', '\xa0', '\t']) + s[i + 1:]
+        try:
+            s.encode(codec)
+        except UnicodeEncodeError:
+            continue
+        if 1 <= len(s) <= vmax:
+            return s
+    return 'A\\B\\C\\1234567890STACOU'
+
+
 def pds_sub(tag, v):
     return '%04d%03d%s' % (tag, len(v), v)
 
@@ -262,6 +311,8 @@ def rand_value(rng, c, codec):
         return rand_text(rng, codec, c['field_length'])
     if proc == 'PDS':
         return rand_pds_string(rng, codec, vmax)
+    if proc == 'DE43' and ft != 'FIXED' and rng.random() < 0.8:
+        return rand_de43(rng, codec, vmax)
     if proc in ('PAN', 'PAN-PREFIX'):
         n = rng.choice([10, 13, 16, 19, rng.randint(10, 40), rng.randint(1, 9)])
         return ''.join(rng.choice('0123456789') for _ in range(n))
@@ -316,6 +367,37 @@ def greedy_chunks(sizes, cap=999):
             cur = 0
         cur += z
     return n + (1 if cur else 0)
+
+
+def ref_de43(s, pattern):
+    """Independent reading of a merchant field under the PACKAGED pattern, written from its documentation without a regex
+    engine:  name \\ address \\ suburb \\ postcode(10) state(3) country(3, no white space), the three text parts
+    non-empty, as short as possible and without their trailing blanks, nothing may follow (a final newline is tolerated).
+    Returns the DE43_* dict, {} when the field does not have that shape, None for any other pattern (no independent reading)."""
+    if pattern != DE43_REGEX:
+        return None
+    e = len(s) - 1 if s.endswith('\n') else len(s)
+    if e < 16 + 6 or '\n' in s[:e]:
+        return {}
+    tail = s[e - 16:e]
+    if any(ch.isspace() for ch in tail[13:]):
+        return {}
+    head = s[:e - 16]
+    b3 = len(head) - 1
+    if head[b3] != '\\':
+        return {}
+
+    def part(a, b):          # head[a:b] without trailing blanks, at least one character
+        t = head[a:b].rstrip(' ')
+        return t if t else head[a:a + 1]
+    for b1 in range(1, b3):
+        if head[b1] != '\\':
+            continue
+        for b2 in range(b1 + 2, b3 - 1):
+            if head[b2] == '\\':
+                return {'DE43_NAME': part(0, b1), 'DE43_ADDRESS': part(b1 + 1, b2), 'DE43_SUBURB': part(b2 + 1, b3),
+                        'DE43_POSTCODE': tail[:10].rstrip(), 'DE43_STATE': tail[10:13], 'DE43_COUNTRY': tail[13:16]}
+    return {}
 
 
 def expected_back(cfg, k, v):
